@@ -179,6 +179,12 @@ class Gen:
             return {"k": "not", "e": self.boolean(fs, d - 1)}
         if x < 0.42:
             return {"k": r.choice(["in", "in", "notin"]), "e": self.fieldy(fs, 1), "rl": self.rangelist(fs)}
+        en = [i for i, f in enumerate(fs) if f["enums"]]
+        if en and r.random() < 0.3:
+            # an enum field against an enumerator written as the Python enum member
+            i = r.choice(en)
+            m = r.randrange(len(fs[i]["enums"]))
+            return B(r.choice(CMP), F(i), {"k": "enumlit", "enums": fs[i]["enums"], "m": m, "v": fs[i]["enums"][m]})
         return B(r.choice(CMP), self.fieldy(fs, d), self.arith(fs, d, False))
 
     # statements --------------------------------------------------------------
